@@ -127,3 +127,7 @@ func MemStateOf(k int) int        { return 0 }
 // CalledFrom reports how many times repo function `callee` was called directly from repo function `caller`
 // on this path (short function names). Symbolic runs only; natively 0.
 func CalledFrom(callee, caller string) int { return 0 }
+
+// JSONShape renders the structure of a JSON document with leaves abstracted to #string/#number/#base64/true/false/null
+// (object members in document order). Symbolically it reads the model's abstract tree; natively it parses the bytes.
+func JSONShape(b []byte) string { return jsonShapeNative(b) }
